@@ -555,7 +555,20 @@ class ExcelCompiler:
                                 walk_dependents(self.cell_map[member_addr.address])
                     msg = ''
                 else:
-                    msg = 'warning', f'Address {addr} not found in cell_map'
+                    # a range no formula uses as a range: its cells are inputs
+                    addr_range = AddressRange(addr)
+                    if addr_range.is_range and not addr_range.is_unbounded_range:
+                        members = tuple(
+                            self.cell_map[member_addr.address]
+                            for member_addr in flatten(addr_range.resolve_range)
+                            if member_addr.address in self.cell_map)
+                    else:
+                        members = ()
+                    for member in members:
+                        if member in self.dep_graph:
+                            walk_dependents(member)
+                    msg = '' if members else (
+                        'warning', f'Address {addr} not found in cell_map')
             except nx.exception.NetworkXError as exc:
                 if AddressRange(addr) not in output_addrs:
                     msg = 'error', f'{exc}: which usually means no outputs are dependant on it.'
